@@ -266,17 +266,28 @@ def check_graph(n, shape_idx, body_idx, cond_idx, alphabet, conds, order=None):
 # cell a known value, and later through an edge on which that knowledge was lost upstream; the blocks after X use
 # the value.  Every listed order of LocKey creation is run (the work list is visited in key order).
 #   (name, shape, per block list of alternative bodies, per block condition)
+_SSR = [("c=a", "a=5", "a=c", "r=a"), ("c=a", "a=5", "b=a", "a=c", "r=a"), ("swap", "a=5", "swap", "r=a"),
+        ("@[sp+4]=a", "a=5", "a=@[sp+4]", "r=a"), ("c=a", "a=c", "r=a")]
 TEMPLATES = [
     ("cell-written-on-one-branch-used-two-blocks-later",
      ((1, 2), (3,), (3,), (4,), ()),
      [[()], [("@[sp+8]=1",), ("b=5",)], [(), ("b=2",)], [()], [("b=@[sp+8]", "r=b"), ("r=b",)]],
-     ["a", None, None, None, None]),
+     ["a", None, None, None, None], "permutations"),
     # both edges into X (block 5) are unconditional jumps: from the pass-through block 7 (b = 5 known) and from the common
     # tail 4 of the nested if/else (b = 1 or 2: not known); block 6 uses b
     ("value-direct-or-through-nested-if-else-with-common-tail-used-later",
      ((7, 1), (2, 3), (4,), (4,), (5,), (6,), (), (5,)),
      [[("b=5",), ()], [()], [("b=1",)], [("b=2",), ("b=1",)], [()], [()], [("r=b",), ("r=b+1",)], [()]],
-     ["a", "a==b", None, None, None, None, None, None]),
+     ["a", "a==b", None, None, None, None, None, None], "permutations"),
+    # "save / scratch constant / restore of a register the analysis does not know": a holds two different constants on the
+    # two ways into the join (or is a loop-carried value), is saved (other register, exchange with b, stack slot),
+    # overwritten with a constant, restored and read.
+    ("save-scratch-restore-after-a-diamond", ((1, 2), (3,), (3,), ()),
+     [[()], [("a=0",)], [("a=2",), ("a=0",)], _SSR], ["b", None, None, None], "traversal"),
+    ("save-scratch-restore-after-a-triangle", ((1, 2), (2,), ()),
+     [[("a=0",), ()], [("a=2",)], _SSR], ["b", None, None], "traversal"),
+    ("save-scratch-restore-behind-a-loop-head", ((1,), (1, 2), ()),
+     [[(), ("a=0",)], [x + ("a=a+1",) for x in _SSR], [(), ("r=a",)]], [None, "a", None], "traversal"),
 ]
 
 
@@ -325,10 +336,10 @@ def orders_for(shape, full):
 
 
 def check_template(ti, body_choice, order):
-    name, shape, alts, cond_names = TEMPLATES[ti]
+    name, shape, alts, cond_names = TEMPLATES[ti][:4]
     body_names = [list(alts[i][body_choice[i]]) for i in range(len(shape))]
     case = {"kind": "template", "template": ti, "name": name, "choice": list(body_choice), "order": list(order)}
-    return check_named(shape, body_names, cond_names, order, case, tag=":late-weaker-edge")
+    return check_named(shape, body_names, cond_names, order, case, tag=":" + ("late-weaker-edge" if TEMPLATES[ti][4] == "permutations" else "save-scratch-restore"))
 
 
 def check_x86(idx):
@@ -378,7 +389,7 @@ def _shard(args):
         return 1, 1 if info["changed"] and info["compared"] else 0, v, "x86:" + x86funcs.FUNCS[args[1]][0], sigs, info
     if args[0] == "template":
         _, ti, orders, all_choices = args
-        name, shape, alts, cond_names = TEMPLATES[ti]
+        name, shape, alts, cond_names = TEMPLATES[ti][:4][:4]
         cnt = nt = 0
         vs, sigs, tot, sample = [], {}, {}, None
         for order in orders:
@@ -485,13 +496,17 @@ def run(ctx):
             if irgen.shape_has_exit(irgen.shapes(n)[i]):
                 shards.append(("irgen", n, maxlen, alphabet, conds, i, i + 1, order))
     template_orders = {}
-    for ti, (name, shape, alts, cond_names) in enumerate(TEMPLATES):
-        # <= 5 blocks: every permutation x every body alternative.  Larger: traversal numberings + rotations x every body
-        # alternative, and (thorough) every permutation x the first body alternative of each block
+    for ti, (name, shape, alts, cond_names, order_mode) in enumerate(TEMPLATES):
+        # "permutations": <= 5 blocks: every permutation x every body alternative; larger: traversal numberings + rotations x
+        # every body alternative, and (thorough) every permutation x the first body alternative of each block.
+        # "traversal": traversal numberings + rotations (quick), every permutation (thorough), x every body alternative.
         small = len(shape) <= 5
-        jobs = [(orders_for(shape, full=small), True)]
-        if not small and not ctx.quick:
-            jobs.append((orders_for(shape, full=True), False))
+        if order_mode == "permutations":
+            jobs = [(orders_for(shape, full=small), True)]
+            if not small and not ctx.quick:
+                jobs.append((orders_for(shape, full=True), False))
+        else:
+            jobs = [(orders_for(shape, full=not ctx.quick), True)]
         template_orders[name] = [len(o) for o, _ in jobs]
         for orders, all_choices in jobs:
             step = max(1, len(orders) // 48)
@@ -526,9 +541,9 @@ def run(ctx):
         "violating_graphs_by_signature": sigcount,
         "samples": [r[3] for r in res if r[3]][:6],
         "exhaustive": True,
-        "template_graphs(late weaker edge x LocKey creation orders)": tot.get("template_graphs", 0),
+        "template_graphs(x LocKey creation orders)": tot.get("template_graphs", 0),
         "bounds": {"plan(blocks,max_assignments,alphabet,conditions,lockey_creation_order)": [[n, l, a, c, o] for n, l, a, c, o in plan],
-                   "templates(name,shape,body_alternatives,conditions)": [[t[0], t[1], t[2], t[3]] for t in TEMPLATES],
+                   "templates(name,shape,body_alternatives,conditions,lockey_orders)": [[t[0], t[1], t[2], t[3], t[4]] for t in TEMPLATES],
                    "template_lockey_orders": template_orders,
                    "fuel_blocks": FUEL,
                    "state_lattice": "a,b in {0,1,2,0xFFFFFFFF} (when read), sp = 0x1000, cells at sp+4 and sp+8 in {address pattern, 0, 1} (when memory is read); every *_init identifier = its register"},
